@@ -328,6 +328,9 @@ def glue_builtins() -> None:
     agen = some_asyncgen()
     asend_type = type(agen.asend(None))
     athrow_type = type(agen.athrow(ValueError))
+    if sys.version_info >= (3, 10):
+        # ... and of the awaitable returned by the builtin anext(agen, default)
+        anext_default_type = type(anext(agen, None))
     try:
         # Clean up the asyncgen so it doesn't confuse any finalization hooks
         agen.aclose().send(None)  # type: ignore
@@ -353,6 +356,15 @@ def glue_builtins() -> None:
         raise RuntimeError(
             f"{aw!r} doesn't refer to anything with an ag_frame attribute"
         )
+
+    if sys.version_info >= (3, 10):
+
+        @unwrap_stackitem.register(anext_default_type)
+        def unwrap_anext_with_default(aw: Any) -> Any:
+            # refers to the awaitable returned by __anext__(), which it
+            # doesn't expose, and (after that) to the default value
+            referents = gc.get_referents(aw)
+            return referents[0] if referents else None
 
     @unwrap_stackitem.register(coro_wrapper_type)
     def unwrap_coroutine_wrapper(aw: Any) -> Any:
